@@ -69,6 +69,11 @@ CHECKS.update({
    text="For each base scenario the teardown is injected right after every single wire event on either side; every blocked connect/read/write/accept/shutdown call must return within 1 virtual second, the side must be closed and silent ten virtual minutes later, a delivered ABORT must fail the peer's blocked reads with an error wrapping ErrChunk that contains the reason, repeated Close must return, and after both sides are closed no goroutine of the library may remain (synctest reports leftovers).",
    note="exhaustive per generated base scenario (48 quick / 400 thorough bases); one schedule per injection point. A write error counts from the first failed Write call. Process death (panic) is captured by the driver with the scenario written beforehand.", ref="6/C09"),
 })
+CHECKS.update({
+ "C15": dict(level="exploration", technique="property-based testing (rapid): two-endpoint simulation with an independent byte ledger (accepted writes minus bytes acknowledged according to SACKs actually delivered) evaluated at every quiescent point; callback counting against sampled threshold crossings; re-entrant callback bodies",
+   text="After every single stimulus: per stream BufferedAmount() equals accepted bytes minus bytes newly acknowledged (cumulative, gap-then-cumulative, skipped after abandonment) per the harness ledger, the association figure equals the sum over streams, everything returns to exactly 0, failed writes roll back, the low-threshold callback runs once per downward crossing and may call back into stream and association.",
+   note="Exact callback counting only for non-blocking writers with plain callback bodies (otherwise the amount can cross twice inside one quiescent step; there only 'not fewer than crossings' is required). A callback that deadlocks on library locks is reported through the watchdog.", ref="6/C15"),
+})
 NOT_YET = {}
 props = [json.loads(l) for l in open(os.path.join(V, "properties.jsonl"))]
 checks = []
